@@ -1437,9 +1437,58 @@ public:
     bool ddl_between_{false};
 
     // ---- C15 value round trip --------------------------------------------------------------------
+    // a pointer-typed (inline) value may be the null pointer / the word 0: it is a value like any other and must round-trip through the
+    // typed get / scan and through the cursor, which must not take it for a slot cleared by a concurrent remove and wait for ever.
+    // Self-contained (the key is removed again): the other operations of the interpreter read every entry as char*.
+    void inline_null_rt(const std::string& name) {
+        ensure_session();
+        const MStore& ms = model[name];
+        std::string key;
+        for (int tries = 0; tries < 8; ++tries) {
+            key = vf::gen_fresh_key(c_, kopt_);
+            if (ms.count(key) == 0) { break; }
+        }
+        if (ms.count(key) != 0) { return; }
+        note("inline_null_rt(" + show(name) + ", \"" + show(key) + "\")");
+        std::uintptr_t w = 0;
+        ++st_.checks;
+        status rc = put<std::uintptr_t>(token, name, key, &w, sizeof(w), static_cast<std::uintptr_t**>(nullptr),
+                                        static_cast<value_align_type>(alignof(std::uintptr_t)), false, static_cast<inserted_node_info*>(nullptr));
+        if (rc != status::OK) { fail("put_status", "put of an inline null value returned " + st_name(rc)); }
+        std::pair<std::uintptr_t*, std::size_t> out{};
+        rc = get<std::uintptr_t>(name, key, out);
+        ++st_.checks;
+        if (rc != status::OK || out.first != nullptr) { fail("value_mismatch", "get of an inline null value: " + st_name(rc)); }
+        {
+            std::vector<std::tuple<std::string, std::uintptr_t*, std::size_t>> tl;
+            rc = scan<std::uintptr_t>(name, key, scan_endpoint::INCLUSIVE, key, scan_endpoint::INCLUSIVE, tl, nullptr, 0, false);
+            ++st_.checks;
+            if (rc != status::OK || tl.size() != 1 || std::get<0>(tl[0]) != key || std::get<1>(tl[0]) != nullptr) {
+                fail("value_scan", "point scan of an inline null value: " + st_name(rc) + ", " + std::to_string(tl.size()) + " entries");
+            }
+        }
+        for (bool r2l : {false, true}) {
+            iscan_context* ctx = nullptr;
+            void* val = &w;
+            rc = iscan_open(name, key, scan_endpoint::INCLUSIVE, key, scan_endpoint::INCLUSIVE, r2l, false, ctx, val);
+            ++st_.checks;
+            bool ok = rc == status::OK && ctx != nullptr && ctx->full_key() == key && val == nullptr;
+            if (ctx != nullptr) { iscan_close(ctx); }
+            if (!ok) { fail("value_iscan", "point iscan of an inline null value: " + st_name(rc)); }
+        }
+        rc = remove(token, name, key);
+        ++st_.checks;
+        if (rc != status::OK) { fail("remove_status", "remove of a key with an inline null value returned " + st_name(rc)); }
+        classes.insert("inline_null_value");
+    }
+
     void op_value_rt() {
         std::string name = pick_storage(false);
         if (model.count(name) == 0) { return; }
+        if (vf::g_decoder >= 2 && pf_.inline_values && c_.chance(1, 10)) {
+            inline_null_rt(name);
+            return;
+        }
         MStore& ms = model[name];
         std::string key = ms.empty() || c_.chance(1, 2) ? vf::gen_fresh_key(c_, kopt_) : vf::nth_key(ms, c_.range(0, 65535));
         MVal v = gen_value();
